@@ -442,6 +442,29 @@ if _C01_TAIL in CLAIMS['C01']['text']:
 else:
     CLAIMS['C01']['text'] += ' ' + _C01_NET
 CLAIMS['C01']['technique'] += ' + composition theorem over a two-endpoint model with a packet-history network (NetSys)'
+# FIFO selection (agent-selcontig): the hypothesis SelContig of C01_netsys_prefix is derived from the selection the code makes for ordered traffic.
+_C01_SEL_OLD = ('the composition of the selection oracle with the PendQ model '
+    '(SelContig is a hypothesis here and a theorem there); ')
+_C01_SEL_NEW = ('the correspondence between the selection oracle of the Sender model and the real pending queue (SelFifo - the oracle names index 0 every time - is proved of the PendQ model '
+    'for ordered-only traffic, C17_ordered_only_fifo, and checked on the real queue\'s logged selections by the [C01,C17] predicate of the direct-drive sender harness; the two models are composed in Model/NetSysQ.lean, see below); ')
+assert _C01_SEL_OLD in CLAIMS['C01']['text']
+CLAIMS['C01']['text'] = CLAIMS['C01']['text'].replace(_C01_SEL_OLD, _C01_SEL_NEW)
+CLAIMS['C01']['text'] += (' SELECTION HYPOTHESIS DERIVED (Props/C01sel.lean, Proofs/NetSys/Sel*.lean): SelContig is no longer a primitive hypothesis of the DATA composition. SelFifo (decidable on the '
+    'op list: every gather carries a selection list of zeros = peek returns the OLDEST pending chunk every time; the Sender model keeps the pending queue as a list in push order, index 0 is the oldest) '
+    'is the selection messagePendingQueuePolicy makes when only ordered chunks are queued - Props/C17fifo.lean C17_ordered_only_fifo: on the PendQ model, for every push/peek/pop list with ordered '
+    'pushes only, pushes = pops ++ contents in push order and every peek / pop is handed the head of the contents. C01_fifo_tsn_order (sender half, all runs, any configuration and oracles): under FIFO '
+    'selection the fragment identities written = those moved to in flight (TSN order) ++ those still pending - nothing overtakes, no chunk created by a write leaves the pending queue unsent (every '
+    'fragment has 1..maxPayloadSize bytes, so the no-user-data branch of popPendingDataChunksToSend is never taken); C01_selfifo_selcontig: SelFifo and Reliable imply SelContig (write fills the queue '
+    'message by message, fragments adjacent and in order); C01_netsys_prefix_fifo: the statement of C01_netsys_prefix with SelFifo in the place of SelContig. What remains a hypothesis about the real '
+    'code is SelFifo itself, i.e. that the Sender model\'s oracle IS the real queue\'s answer: tied by the direct-drive sender harness, which logs the push-order index of every chunk the real '
+    'pendingQueue hands out (as ora sel=), replays it through Sender.gather (DIFF) and now checks with predicate [C01,C17] that in non-interleaved sequences whose streams are all ordered every logged index is 0. '
+    'COMPOSED MODEL (Model/NetSysQ.lean, Proofs/NetSys/SelQ.lean): NetSys with the oracle replaced by the message policy of the PendQ model - the queue is pushed every chunk a write appends to the pending list, '
+    'a gather\'s selection list is what draining the queue hands out, each chunk looked up by identity in the pending list (the very computation by which the harness derives sel= from the real queue); '
+    'C01_netsysq_selfifo: over reliable ordered streams every selection list it computes is all zeros; C01_netsysq_prefix: the prefix theorem for EVERY run of NetSysQ with no hypothesis on the selection at all '
+    '(C01_netsysq_run: a NetSysQ run is the NetSys run on the resolved operation list); C01_netsysq_no_queue_error: in such runs no pendingQueue.pop fails (the flag after which the composed model hands out '
+    'nothing is never raised: writes queue whole messages B first / E last, the queue runs parallel to the pending list).')
+CLAIMS['C17']['text'] += (' Props/C17fifo.lean: C17_ordered_only_fifo - under the message policy with ordered pushes only the queue is globally first-in-first-out (pushes = pops ++ contents; every '
+    'peek / pop returns the oldest queued chunk); it is what justifies the FIFO selection hypothesis SelFifo of C01_netsys_prefix_fifo.')
 if 'C03' in CLAIMS:
     CLAIMS['C03']['text'] += (' RECEIVE HALF (Props/C03recv.lean): C03_recv_total - no op list drives the receive-half model into its explicit panic outcome (the two empty-slice accesses of '
         'pushWithError are unreachable: C03_reasm_push_total); C03_stale_fwdtsn_noop / C03_stale_ifwdtsn_noop - a FORWARD-TSN at or behind the cumulative point changes nothing but forces an '
